@@ -372,3 +372,28 @@ pub fn gen_c18(out: &mut dyn Write, thorough: bool, seed: u64) {
         writeln!(out, "{} c18", toks.join(" ")).unwrap();
     }
 }
+
+/// C18 under Miri (thorough tier): the C18 cases with small models (windows <= 2, short lines), a few dozen
+pub fn gen_c18_miri(out: &mut dyn Write, seed: u64) {
+    let mut buf: Vec<u8> = vec![];
+    gen_c18(&mut buf, false, seed);
+    let (mut n_h, mut n_s) = (0, 0);
+    for line in String::from_utf8_lossy(&buf).lines() {
+        if line.len() > 700 {
+            continue;
+        }
+        let small = line.split(|c| c == ' ' || c == '!').filter(|t| t.starts_with('M')).all(|t| {
+            let mut it = t[1..].split('.');
+            let cw: usize = it.next().and_then(|x| x.parse().ok()).unwrap_or(99);
+            let tw: usize = it.next().and_then(|x| x.parse().ok()).unwrap_or(99);
+            cw <= 2 && tw <= 2
+        });
+        if line.starts_with("H ") && small && n_h < 100 && line.contains(";g") {
+            n_h += 1;
+            writeln!(out, "{line}").unwrap();
+        } else if line.starts_with("S ") && n_s < 30 && line.len() > 60 {
+            n_s += 1;
+            writeln!(out, "{line}").unwrap();
+        }
+    }
+}
